@@ -41,6 +41,67 @@ def panic_free(ctx, F, entry_keys, rule, what, allow=None):
     return cl
 
 
+def end_tag_slice_form(F, B, exs, payload, t2):
+    """(typ_ok, size_ok, conjunction_ok, address_ok) if has_valid_end_tag is a decision list over the two u32 words at
+    payload[len-8..len-4] and payload[len-4..len]; None if its exits are not of that form at all"""
+    from .. import slices as SL
+    n = ("len", payload)
+    WT = ("le32", payload, G.canon(("bin", "Sub", n, ("c", 8))))
+    WS = ("le32", payload, G.canon(("bin", "Sub", n, ("c", 4))))
+
+    def is_end(x):
+        return x[0] == "call" and x[1] == t2 and x[2][0][0] == "cs" and len(x[2][0]) > 2 and x[2][0][2] == "End"
+
+    def kind(f):
+        """'typ=' / 'typ!=' / 'size=' / 'size!=' / 'short' / None for a normalised fact"""
+        if f[0] != "cmp":
+            return None
+        a, b_, op = f[2], f[3], f[1]
+        for (x, y) in ((a, b_), (b_, a)):
+            if is_end(y) and op in ("Eq", "Ne"):
+                return ("typ" + ("=" if op == "Eq" else "!="), x)
+            if y == ("c", 8) and x[0] == "le32" and op in ("Eq", "Ne"):
+                return ("size" + ("=" if op == "Eq" else "!="), x)
+        if a == n and b_ == ("c", 8) and op == "Lt" or b_ == n and a == ("c", 8) and op == "Gt":
+            return ("short", None)
+        return None
+    seen_words = []
+    have_value = False
+    for e in exs:
+        pc = SL.norm_facts([N(f) for f in e.facts], B)
+        nm = SL.Norm([f for f in pc if f[0] == "cmp"], B)
+        v = nm.norm(N(e.val))
+        ks = [kind(f) for f in pc]
+        ks = [k_ for k_ in ks if k_]
+        tags = {k_[0] for k_ in ks}
+        seen_words += [k_ for k_ in ks if k_[1] is not None]
+        if v == ("c", 0):
+            if not ({"short", "typ!=", "size!="} & tags):
+                return None
+        elif v == ("c", 1):
+            if not {"typ=", "size="} <= tags:
+                return None
+            have_value = True
+        elif v[0] == "bin" and v[1] == "Eq":
+            kv = kind(("cmp", "Eq", v[2], v[3]))
+            if kv is None:
+                return None
+            seen_words.append(kv)
+            other = "typ=" if kv[0].startswith("size") else "size="
+            if other not in tags:
+                return None
+            have_value = True
+        else:
+            return None
+    if not have_value:
+        return None
+    typ_words = {w for (k_, w) in seen_words if k_.startswith("typ")}
+    size_words = {w for (k_, w) in seen_words if k_.startswith("size")}
+    typ_ok = typ_words == {WT}
+    size_ok = size_words == {WS}
+    return typ_ok, size_ok, True, typ_ok and size_ok
+
+
 def check_ref_from_ptr(ctx, F, hty, size_field_off, rule="A2"):
     """ref_from_ptr(ptr) = ref_from_slice(from_raw_parts(ptr as *u8, zext(raw size field of *ptr)))"""
     key = "multiboot2_common::DynSizedStructure::<%s>::ref_from_ptr::<'_>" % hty
@@ -271,6 +332,14 @@ def run(ctx):
                             return None
                         rels = [rel(pn) for pn in pns]
                         ptr_ok = all(r is not None and r.key() == want_rel.key() for r in rels)
+        if not (good and size_ok and typ_ok and conj and ptr_ok):
+            # the predicate written over the payload *slice* (safe code): its last eight bytes read as two u32 words.  Decision list
+            # over the SLICE-normalised exits: false when there is no room (len < 8), false when the type word differs, else the
+            # comparison of the size word with 8
+            sf = end_tag_slice_form(F, B, exs, payload, t2)
+            if sf is not None:
+                good = True
+                typ_ok, size_ok, conj, ptr_ok = sf
         ctx.check(good and size_ok and typ_ok and conj, "A3", "end-tag:conjunction",
                   "the end-tag predicate is (u32 image of stored type == u32 image of TagType::End) && (zext(stored size) == 8)",
                   B.site(), how="exits %s" % [G.show(e.val)[:80] for e in exs], why="exits %s" % [(G.show(e.val)[:200], [G.show(f)[:200] for f in e.own]) for e in exs])
